@@ -201,6 +201,7 @@ type Disagreement struct {
 	Model  string `json:"model,omitempty"`
 	Spec   string `json:"spec,omitempty"`
 	Detail string `json:"detail,omitempty"`
+	Class  string `json:"class,omitempty"` // known-finding class decided by the extracted classifier / exact rule
 }
 
 type Report struct {
@@ -225,10 +226,11 @@ func (r *Report) Count(k string) {
 }
 
 func (r *Report) Add(d Disagreement) {
-	if len(r.Disagreements) < 200 {
+	key := "disagreement:" + d.Kind + ":" + d.Class + ":" + d.Where
+	if r.Distribution[key] < 12 && len(r.Disagreements) < 400 {
 		r.Disagreements = append(r.Disagreements, d)
 	}
-	r.Count("disagreement:" + d.Kind)
+	r.Count(key)
 }
 
 func (r *Report) Write(path string) error {
